@@ -18,6 +18,22 @@ CHECKS = {
             'Exploration is the right level: the property quantifies over 2^64 operand pairs and all expression shapes.',
             'Trusts the reference interpreter (calibrated by vf.spec on /repo/tests/gen), gcc 12 / clang 14 on x86-64, and '
             'that the boundary pools + random sampling reach the failing region.', 'DESIGN.md section 7 C01'),
+    'C02': ('F1 end-to-end (wasmkit + refinterp + cexec)',
+            'PBT: exhaustive boundary-pool operand tables + random bit patterns + random mixed int/float expression modules, '
+            'differential against a spec-calibrated reference interpreter (bit-exact, NaN by class, trap codes), '
+            'compiler/-O matrix, choice-sequence shrinking',
+            'Generated-input search over every float-involving operator (pool x pool exhaustive, incl. every truncation '
+            'boundary and its neighbours, all NaN classes, signed zeros, subnormals) plus random expression modules; results '
+            'compared bit-exactly (NaN by class where the spec is non-deterministic, exactly for bit-preserving instructions) '
+            'and traps by code. Exploration: the operand space is 2^64 per operand.',
+            'Trusts the oracle float arithmetic (numpy IEEE scalar ops, exact integer code for conversions; calibrated on the '
+            'spec suite), SSE arithmetic of the host, and pool/random sampling.', 'DESIGN.md section 7 C02'),
+    'C07': ('F1 end-to-end (wasmkit + cexec)',
+            'PBT round trip: generated constants in every constant position -> w2c2 C text -> gcc/clang -> bits read back',
+            'Round-trip search: hundreds of constants per module in bodies, global initialisers, data/element segment offsets; '
+            'pool (all NaN classes, -0, inf, subnormal, extremes, INT_MIN, decimal hard cases) + random bit patterns; the bits '
+            'that come back from the compiled code must equal the bits in the module. Exploration over 2^64 immediates.',
+            'Trusts the C compilers\' decimal-to-binary conversion and memcpy-based observation.', 'DESIGN.md section 7 C07'),
 }
 
 NOT_YET = {}
